@@ -4,10 +4,103 @@
 
 package cache
 
-// The bounded cache is used through these two operations by the resolver; they are called by (empty)
-// contract there - the cache's own list/map manipulation is not verified.
-//@ func (*BoundedCache[K, V]).Set
-//@   noinline
+// ---------------------------------------------------------------------------
+// Bounded cache (property C17: the resolver's cache container). The map is the set of nodes; the list
+// threads them. Representation invariant, first-order and local to each node (no reachability): every map
+// entry is a node carrying its own key; a node without predecessor is the head, one without successor is
+// the tail; the neighbour of a node is itself a map entry and points back.
+// ---------------------------------------------------------------------------
 
+//@ pure bcNodeOK(c *BoundedCache, n *boundedNode) bool = !isnil(n) && has(c.nodeByKey, n.Key) && c.nodeByKey[n.Key] == n
+//@ pure bcEnds(c *BoundedCache) bool = (isnil(c.head) <==> isnil(c.tail)) && allocated(c.head) && allocated(c.tail) && (!isnil(c.head) ==> bcNodeOK(c, c.head) && isnil(c.head.prev)) && (!isnil(c.tail) ==> bcNodeOK(c, c.tail) && isnil(c.tail.next))
+//@ pure bcLinks(c *BoundedCache, n *boundedNode) bool = allocated(n.prev) && allocated(n.next) && (isnil(n.prev) ==> n == c.head) && (isnil(n.next) ==> n == c.tail) && (!isnil(n.next) ==> bcNodeOK(c, n.next) && n.next.prev == n) && (!isnil(n.prev) ==> bcNodeOK(c, n.prev) && n.prev.next == n)
+//@ pure bcWF(c *BoundedCache) bool = !isnil(c.nodeByKey) && c.capacity >= 1 && bcEnds(c) && (forall k string :: has(c.nodeByKey, k) ==> !isnil(c.nodeByKey[k]) && allocated(c.nodeByKey[k]) && c.nodeByKey[k].Key == k && bcLinks(c, c.nodeByKey[k]))
+
+//@ func (*BoundedCache[K, V]).remove
+//@   requires !isnil(c) && bcWF(c) && bcNodeOK(c, node)
+//@   ensures bcWF(c)
+//@   ensures !has(c.nodeByKey, old(node.Key))
+//@   ensures forall k string :: k != old(node.Key) ==> has(c.nodeByKey, k) == old(has(c.nodeByKey, k)) && c.nodeByKey[k] == old(c.nodeByKey[k])
+
+//@ func (*BoundedCache[K, V]).moveToTail
+//@   requires !isnil(c) && bcWF(c) && bcNodeOK(c, node) && !isnil(c.tail)
+//@   modifies c.head, c.tail, node.prev, node.next, node.prev.next, node.next.prev, c.tail.next
+//@   ensures c.tail == node && !isnil(c.nodeByKey) && c.capacity >= 1
+//@   ensures bcEnds(c)
+//@   ensures forall k string :: has(c.nodeByKey, k) ==> !isnil(c.nodeByKey[k]) && allocated(c.nodeByKey[k]) && c.nodeByKey[k].Key == k
+//@   ensures forall k string :: has(c.nodeByKey, k) ==> allocated(c.nodeByKey[k].prev) && allocated(c.nodeByKey[k].next) && (isnil(c.nodeByKey[k].prev) ==> c.nodeByKey[k] == c.head) && (isnil(c.nodeByKey[k].next) ==> c.nodeByKey[k] == c.tail)
+//@   ensures forall k string :: has(c.nodeByKey, k) && !isnil(c.nodeByKey[k].next) ==> bcNodeOK(c, c.nodeByKey[k].next) && c.nodeByKey[k].next.prev == c.nodeByKey[k]
+//@   ensures forall k string :: has(c.nodeByKey, k) && !isnil(c.nodeByKey[k].prev) ==> bcNodeOK(c, c.nodeByKey[k].prev) && c.nodeByKey[k].prev.next == c.nodeByKey[k]
+
+//@ func NewBoundedCache
+//@   ensures !isnil(result) && fresh(result) && bcWF(result) && result.capacity == (capacity <= 0 ? 9223372036854775807 : capacity)
+//@   ensures forall k string :: !has(result.nodeByKey, k)
+
+// insert: the new node becomes the tail; when the cache is full the head (least recently used) is evicted
+// first, and nothing else leaves. UB by documentation when the key is already present.
+//@ func (*BoundedCache[K, V]).insert
+//@   requires !isnil(c) && bcWF(c) && !has(c.nodeByKey, key)
+//@   ensures !isnil(c.nodeByKey) && c.capacity >= 1
+//@   ensures bcEnds(c)
+//@   ensures forall k string :: has(c.nodeByKey, k) ==> !isnil(c.nodeByKey[k]) && allocated(c.nodeByKey[k]) && c.nodeByKey[k].Key == k
+//@   ensures forall k string :: has(c.nodeByKey, k) ==> allocated(c.nodeByKey[k].prev) && allocated(c.nodeByKey[k].next) && (isnil(c.nodeByKey[k].prev) ==> c.nodeByKey[k] == c.head) && (isnil(c.nodeByKey[k].next) ==> c.nodeByKey[k] == c.tail)
+//@   ensures forall k string :: has(c.nodeByKey, k) && !isnil(c.nodeByKey[k].next) ==> bcNodeOK(c, c.nodeByKey[k].next) && c.nodeByKey[k].next.prev == c.nodeByKey[k]
+//@   ensures forall k string :: has(c.nodeByKey, k) && !isnil(c.nodeByKey[k].prev) ==> bcNodeOK(c, c.nodeByKey[k].prev) && c.nodeByKey[k].prev.next == c.nodeByKey[k]
+//@   ensures has(c.nodeByKey, key) && c.nodeByKey[key] == c.tail && c.tail.Key == key && c.tail.Value == value
+//@   ensures forall k string :: k != key && has(c.nodeByKey, k) ==> old(has(c.nodeByKey, k)) && c.nodeByKey[k] == old(c.nodeByKey[k])
+//@   ensures forall k string :: k != key && old(has(c.nodeByKey, k)) && !(old(len(c.nodeByKey)) == c.capacity && k == old(c.head.Key)) ==> has(c.nodeByKey, k)
+
+//@ func (*BoundedCache[K, V]).Len
+//@   modifies nothing
+//@   ensures result == len(c.nodeByKey)
+
+//@ func (*BoundedCache[K, V]).Capacity
+//@   modifies nothing
+//@   ensures result == c.capacity
+
+//@ func (*BoundedCache[K, V]).Contains
+//@   modifies nothing
+//@   ensures result == has(c.nodeByKey, key)
+
+// Get / GetEntry: a hit returns the stored value and makes the entry the most recently used; the set of
+// entries does not change.
 //@ func (*BoundedCache[K, V]).Get
 //@   noinline
+//@   objinv bcWF(c)
+//@   ensures ok == old(has(c.nodeByKey, key))
+//@   ensures ok ==> value == old(c.nodeByKey[key].Value) && c.tail == c.nodeByKey[key]
+//@   ensures forall k string :: has(c.nodeByKey, k) == old(has(c.nodeByKey, k)) && c.nodeByKey[k] == old(c.nodeByKey[k])
+
+//@ func (*BoundedCache[K, V]).GetEntry
+//@   objinv bcWF(c)
+//@   ensures ok == old(has(c.nodeByKey, key))
+//@   ensures ok ==> c.tail == c.nodeByKey[key] && entry == addr(c.nodeByKey[key].Entry)
+//@   ensures !ok ==> isnil(entry)
+//@   ensures forall k string :: has(c.nodeByKey, k) == old(has(c.nodeByKey, k)) && c.nodeByKey[k] == old(c.nodeByKey[k])
+
+// Set: afterwards the key maps to the value and is the most recently used entry; no other key is added.
+//@ func (*BoundedCache[K, V]).Set
+//@   noinline
+//@   objinv bcWF(c)
+//@   ensures has(c.nodeByKey, key) && c.nodeByKey[key].Value == value && c.tail == c.nodeByKey[key]
+//@   ensures forall k string :: k != key && has(c.nodeByKey, k) ==> old(has(c.nodeByKey, k)) && c.nodeByKey[k] == old(c.nodeByKey[k])
+
+//@ func (*BoundedCache[K, V]).Insert
+//@   objinv bcWF(c)
+//@   ensures result == !old(has(c.nodeByKey, key))
+//@   ensures result ==> has(c.nodeByKey, key) && c.nodeByKey[key].Value == value && c.tail == c.nodeByKey[key]
+//@   ensures !result ==> (forall k string :: has(c.nodeByKey, k) == old(has(c.nodeByKey, k)) && c.nodeByKey[k] == old(c.nodeByKey[k]))
+
+//@ func (*BoundedCache[K, V]).InsertUnchecked
+//@   requires !has(c.nodeByKey, key)
+//@   objinv bcWF(c)
+//@   ensures has(c.nodeByKey, key) && c.nodeByKey[key].Value == value && c.tail == c.nodeByKey[key]
+
+//@ func (*BoundedCache[K, V]).Remove
+//@   objinv bcWF(c)
+//@   ensures result == old(has(c.nodeByKey, key)) && !has(c.nodeByKey, key)
+//@   ensures forall k string :: k != key ==> has(c.nodeByKey, k) == old(has(c.nodeByKey, k)) && c.nodeByKey[k] == old(c.nodeByKey[k])
+
+//@ func (*BoundedCache[K, V]).Clear
+//@   objinv bcWF(c)
+//@   ensures forall k string :: !has(c.nodeByKey, k)
